@@ -77,7 +77,7 @@ def gen_conc(seed, spb, lbits, nthreads=None, profile=None):
     lines.append('seed %d' % r.getrandbits(32))
     return '\n'.join(lines) + '\n'
 
-def gen_sweep(seed, spb, lbits, maxpoints=90):
+def gen_sweep(seed, spb, lbits, maxpoints=90, dup_only=False):
     """Systematic single-preemption sweep over a small program built around bucket displacement: both
     candidate buckets of a new key are full (all keys share one hash, or two hashes with equal buckets),
     one thread inserts it (BFS + path execution), the others erase / update / re-insert residents or
@@ -102,9 +102,16 @@ def gen_sweep(seed, spb, lbits, maxpoints=90):
     t0 = r.choice(['insert %d 5' % newk, 'upsert %d add:1 1 5' % newk, 'uprase %d ctx:1:1 1 5' % newk, 'ioa %d 5' % newk])
     others = []
     o1 = r.choice(['erase %d' % victim, 'erase %d ; insert %d 7' % (victim, victim), 'erasefn %d eraseifeq:%d' % (victim, 10 * victim),
-                   'erase %d ; updatefn %d add:1' % (victim, r.randrange(1, nres + 1))])
+                   'erase %d ; updatefn %d add:1' % (victim, r.randrange(1, nres + 1)),
+                   # the same NEW key inserted by the other thread while the first one is displacing: the
+                   # duplicate must be found by the re-check after displacement, in either candidate bucket
+                   'erase %d ; insert %d 7' % (victim, newk), 'erase %d ; upsert %d ctx:1:1 1 7' % (victim, newk),
+                   'erase %d ; insert %d 7' % (victim, newk)])
+    if dup_only:
+        o1 = r.choice(['erase %d ; insert %d 7' % (victim, newk), 'erase %d ; upsert %d ctx:1:1 1 7' % (victim, newk)])
+        t0 = r.choice(['insert %d 5' % newk, 'upsert %d ctx:1:1 1 5' % newk, 'uprase %d ctx:1:1 1 5' % newk, 'ioa %d 5' % newk])
     others.append(o1)
-    if r.random() < 0.5:
+    if r.random() < 0.5 and not dup_only:
         others.append(r.choice(['updatefn %d add:1 ; updatefn %d add:1' % (victim, victim), 'rehash %d' % r.choice([1, 2, 3]),
                                 'insert %d 9' % (nres + 2), 'find %d ; find %d' % (victim, newk), 'lock ; l.erase %d ; unlock' % victim]))
     progs = [t0] + others
@@ -121,6 +128,50 @@ def gen_sweep(seed, spb, lbits, maxpoints=90):
             for u in order[1:]:
                 sched += [u] * 300
             scripts.append('\n'.join(hdr + body + ['sched ' + ' '.join(map(str, sched))]) + '\n')
+    return scripts
+
+def alt_index(hp, tag, i):
+    return (i ^ (((tag + 1) * gen.MURMUR) & gen.MASK64)) & ((1 << hp) - 1)
+
+def gen_sweep_layout(seed, spb, lbits, maxpoints=140):
+    """Single-preemption sweeps over a constructed layout: key K has candidate buckets X and Y, both full;
+    the residents of X have their alternate in an empty bucket Z (so a displacement path X -> Z exists), the
+    residents of Y likewise elsewhere.  Thread 0 inserts K (displacing), thread 1 erases a resident of Y and
+    inserts the SAME key K (it lands in Y).  Thread 0 must find that duplicate after its displacement."""
+    r = random.Random(seed)
+    hp = r.choice([2, 3]) if spb <= 2 else 2
+    nb = 1 << hp
+    for _ in range(200):
+        X, Y, Z = r.sample(range(nb), 3)
+        tagK = [t for t in range(256) if alt_index(hp, t, X) == Y]
+        tagA = [t for t in range(256) if alt_index(hp, t, X) == Z]
+        tagB = [t for t in range(256) if alt_index(hp, t, Y) not in (X, Y)]
+        if tagK and tagA and tagB:
+            break
+    else:
+        return []
+    keys = {}
+    kid = 1
+    resX, resY = [], []
+    for _ in range(spb):
+        keys[kid] = gen.hash_with_tag(r, r.choice(tagA), X, hp + 3); resX.append(kid); kid += 1
+    for _ in range(spb):
+        keys[kid] = gen.hash_with_tag(r, r.choice(tagB), Y, hp + 3); resY.append(kid); kid += 1
+    K = kid
+    keys[K] = gen.hash_with_tag(r, r.choice(tagK), X, hp + 3)
+    hdr = ['# conc layout sweep X=%d Y=%d Z=%d hp=%d' % (X, Y, Z, hp), 'cfg %d %d 1 1 0' % (spb, lbits)] + ['key %d %d' % kv for kv in keys.items()]
+    hdr.append('init %d' % (nb * spb))
+    hdr.append('pre mhp %d' % (hp + 2))
+    for k in resX + resY:
+        hdr.append('pre insert %d %d' % (k, 10 * k))
+    victim = r.choice(resY)
+    t0 = r.choice(['insert %d 5' % K, 'upsert %d ctx:1:1 1 5' % K, 'uprase %d ctx:1:1 1 5' % K, 'ioa %d 5' % K])
+    t1 = r.choice(['erase %d ; insert %d 7' % (victim, K), 'erase %d ; upsert %d ctx:1:1 1 7' % (victim, K)])
+    body = ['thread 0 ' + t0, 'thread 1 ' + t1]
+    scripts = []
+    for j in range(1, maxpoints):
+        sched = [0] * j + [1] * 300
+        scripts.append('\n'.join(hdr + body + ['sched ' + ' '.join(map(str, sched))]) + '\n')
     return scripts
 
 if __name__ == '__main__':
